@@ -793,6 +793,25 @@ class E3(object):
         self.require_proved()
         return [f for f in self.findings if not f.ok and f.may_raise]
 
+    def occurrences(self, f):
+        """every event of the runtime paths at the site of finding f (a finding
+        keeps one sample event; which handlers / sweeps reach the site must not
+        depend on which sample that is)"""
+        idx = getattr(self, "_site_index", None)
+        if idx is None:
+            from .events import each_event
+            idx = {}
+            seen = set()
+            for _p, e, _l in each_event(self.model, self.model.runtime_entries()):
+                if "site" not in e or id(e) in seen:
+                    continue
+                seen.add(id(e))
+                idx.setdefault((e["k"], e["site"][:2]), []).append(e)
+            self._site_index = idx
+        ev = f.event
+        occ = idx.get((ev["k"], ev["site"][:2]), [])
+        return occ or [ev]
+
     def by_kind(self, kind):
         if kind in ("fk_delete",):
             self.require_proved()
